@@ -22,6 +22,7 @@ func c20(c *Ctx) (*report.Result, error) {
 	res.RuleDoc["O20.3"] = "bookkeeping balance: the +1 report for the stream's shard is followed at once by a deferred -1 report with the same shard value through the same reporter"
 	res.RuleDoc["O20.4"] = "a shared lock cannot be leaked: every critical section of the stream observer's and the stream tracker's mutexes is released by a defer placed before any instruction that may panic, or contains no instruction that may panic and is released on every path"
 	res.RuleDoc["O20.6"] = "a shared lock cannot wedge its holder: inside a critical section of a shared mutex no call (through module callees and closures) acquires the same mutex again, and distinct shared mutexes are nested in one order only"
+	res.RuleDoc["O20.7"] = "lock discipline of the shared bookkeeping: every read or write of a slice/map field of the stream observer and the stream tracker (outside their constructors) happens inside a critical section of the struct's mutex; a write under the write lock - an access that bypasses the lock races with the growth that replaces the table, and updates made to the old table are lost for every other stream"
 	res.RuleDoc["O20.5"] = "untrusted ids never enter narrow arithmetic: no +,-,*,<< on a value of a type narrower than 64 bits that derives from the decoded cluster/shard ids without a dominating upper bound or a widening conversion"
 	res.Floors["O20.4"] = 10
 
@@ -318,6 +319,81 @@ func checkSharedLocks(c *Ctx, res *report.Result) {
 			}
 		}
 	}
+	// ---- O20.7: lock discipline
+	nAcc := 0
+	for _, tname := range []string{"ReplicationStreamObserver", "StreamTracker"} {
+		tn, ok := sp.Pkg.Scope().Lookup(tname).(*types.TypeName)
+		if !ok {
+			continue
+		}
+		st, ok := tn.Type().Underlying().(*types.Struct)
+		if !ok {
+			continue
+		}
+		mutex := ""
+		var guarded []string
+		for i := 0; i < st.NumFields(); i++ {
+			fl := st.Field(i)
+			switch fl.Type().Underlying().(type) {
+			case *types.Slice, *types.Map:
+				guarded = append(guarded, fl.Name())
+			}
+			if flow.NamedIs(fl.Type(), "sync", "Mutex") || flow.NamedIs(fl.Type(), "sync", "RWMutex") {
+				mutex = fl.Name()
+			}
+		}
+		if mutex == "" || len(guarded) == 0 {
+			res.Undec("O20.7", tname+": mutex and guarded table", "", "struct shape not recognised")
+			continue
+		}
+		for _, f := range c.Prog.RepoFuncs() {
+			if f.Package() != sp || !isShippedFunc(f) {
+				continue
+			}
+			for _, b := range f.Blocks {
+				for _, ins := range b.Instrs {
+					fa, ok := ins.(*ssa.FieldAddr)
+					if !ok {
+						continue
+					}
+					nt := namedOf(fa.X.Type())
+					if nt == nil || nt.Obj() != tn {
+						continue
+					}
+					fname := flow.FieldName(fa.X.Type(), fa.Field)
+					isG := false
+					for _, g := range guarded {
+						if g == fname {
+							isG = true
+						}
+					}
+					if !isG {
+						continue
+					}
+					if _, fresh := fa.X.(*ssa.Alloc); fresh {
+						continue // constructor: the object is not shared yet
+					}
+					for _, r := range *fa.Referrers() {
+						ri, _ := r.(ssa.Instruction)
+						write := false
+						if stx, isSt := r.(*ssa.Store); isSt && stx.Addr == ssa.Value(fa) {
+							write = true
+						}
+						nAcc++
+						kind := "read"
+						if write {
+							kind = "write"
+						}
+						res.Check(flow.HeldAt(f, ri, mutex, write), "O20.7", fmt.Sprintf("%s: %s of %s.%s under %s", shortFn(f), kind, tname, fname, mutex), instrPos(c.Prog, ri), "inside a critical section", "the shared table is accessed without holding "+tname+"."+mutex+": the access races with the growth/update that replaces or mutates the table under the lock, and its effect on other streams' entries can be lost")
+					}
+				}
+			}
+		}
+	}
+	if nAcc < 10 {
+		res.Undec("O20.7", "accesses of the shared tables", "", fmt.Sprintf("%d accesses found", nAcc))
+	}
+	res.Analysed["guarded_accesses"] = nAcc
 	// ---- O20.6: no re-entrant acquisition / no lock-order cycle among the shared locks
 	n6 := checkReentrancy(c, res, "O20.6", []*ssa.Package{sp}, func(key string) bool { return shared[key] })
 	res.Analysed["reentrancy_sections"] = n6
